@@ -23,7 +23,7 @@ META = dict(
     bounds=dict(quick=dict(hwmon="1..2 chips x 1..2 sensors, one sensor symbolic (presence of _max/_crit/_label/name, numeric or not, input readable or not, either nesting)", thermal="0..2 trip points",
                            battery="one battery, both file-name families, AC0/online absent/0/1, 5 status values, full/power pinned to 3 values each", cpus="1..3"),
                 thorough=dict(hwmon="1..3 chips x 1..3 sensors", thermal="0..3 trip points", battery="as quick, 5 pinned values each", cpus="1..4")),
-    outside=["sensors exposed only under /sys/devices/platform/coretemp.* and not under /sys/class/hwmon (not one of the statement's directories; observed: such entries are never reported, see DESIGN 7)", "the sysfs (policy*/cpufreq) variant of cpu_freq(), which is selected at import time and absent in this sandbox's import (see DESIGN 5.19)", "several batteries beyond name ordering", "negative readings as symbolic values"],
+    outside=["the sysfs variant of cpu_freq() is checked on a second copy of the package imported under an alias with the two cpufreq paths reported present (C19.cpu_freq_sysfs)", "sensors exposed only under /sys/devices/platform/coretemp.* and not under /sys/class/hwmon (not one of the statement's directories; observed: such entries are never reported, see DESIGN 7)", "several batteries beyond name ordering", "negative readings as symbolic values"],
     labels=["hwmon-entries", "hwmon-values", "thermal-current", "thermal-high", "thermal-critical", "fans", "battery-percent", "battery-plugged", "battery-secsleft", "cpu_freq", "cpu_count", "cpu_stats", "boot_time"],
 )
 
@@ -260,3 +260,65 @@ def cpu(ctx, ncpu):
     ctx.prove(n_log == ncpu and n_core == ncpu, "cpu_count")
     ctx.prove(ctx.all([ctx.eq(st.ctx_switches, ctxt), ctx.eq(st.interrupts, intr), ctx.eq(st.soft_interrupts, soft), st.syscalls == 0]), "cpu_stats")
     ctx.prove(ctx.eq(bt, btime), "boot_time")
+
+
+def _linux_with_sysfs_cpufreq():
+    """a second copy of the package, imported from /repo under an alias while os.path.exists answers True for the two cpufreq
+    paths: this selects the sysfs implementation of cpu_freq() (the choice is made when _pslinux is imported)"""
+    import sys
+
+    from psv import plat
+
+    alias = "psv_linux_cpufreq"
+    if alias in plat._LOADED:
+        return plat._LOADED[alias][0]
+    import psutil._psutil_linux as real_linux
+    import psutil._psutil_posix as real_posix
+
+    def pre(mods, lab):
+        sys.modules[f"{alias}._psutil_linux"] = real_linux
+        sys.modules[f"{alias}._psutil_posix"] = real_posix
+
+    pkg, _, _ = plat.load(alias, sys.platform, (), "posix", pre, patch_os_exists={"/sys/devices/system/cpu/cpufreq/policy0", "/sys/devices/system/cpu/cpu0/cpufreq"})
+    return pkg
+
+
+@harness("C19.cpu_freq_sysfs", quick=[dict(ncpu=n, layout=l) for n in (1, 2) for l in ("policy", "percpu")], thorough=[dict(ncpu=n, layout=l) for n in (1, 2, 3, 4) for l in ("policy", "percpu")])
+def cpu_freq_sysfs(ctx, ncpu, layout):
+    """cpu_freq() from /sys/devices/system/cpu: kHz scaled to MHz, per CPU in CPU order, mean over CPUs, offline CPUs as zeroes"""
+    pkg = _linux_with_sysfs_cpufreq()
+    k = simk.Kernel(ctx)
+    base = "/sys/devices/system/cpu"
+    cur = [ctx.int(f"cur{i}", 0, 10**8) for i in range(ncpu)]
+    mn = [ctx.int(f"min{i}", 0, 10**8) for i in range(ncpu)]
+    mx = [ctx.int(f"max{i}", 0, 10**8) for i in range(ncpu)]
+    src = ctx.choice("current_from", ["scaling_cur_freq", "cpuinfo_cur_freq", "proc_cpuinfo"])
+    offline = ctx.flag("cpu0_offline") if src != "proc_cpuinfo" else False
+    # directories are listed in a non-numeric order on purpose (policy10 < policy2 lexicographically does not arise for ncpu <= 4)
+    for i in range(ncpu):
+        d = f"{base}/cpufreq/policy{i}" if layout == "policy" else f"{base}/cpu{i}/cpufreq"
+        k.files[f"{d}/scaling_min_freq"] = k.num(mn[i]) + b"\n"
+        k.files[f"{d}/scaling_max_freq"] = k.num(mx[i]) + b"\n"
+        if src in ("scaling_cur_freq", "cpuinfo_cur_freq") and not (offline and i == 0):
+            k.files[f"{d}/{src}"] = k.num(cur[i]) + b"\n"
+        k.files[f"{base}/cpu{i}/online"] = "0\n" if (offline and i == 0) else "1\n"
+    if src == "proc_cpuinfo":
+        k.files["/proc/cpuinfo"] = "".join(f"processor\t: {i}\ncpu MHz\t\t: {k.num(cur[i], True, suffix='.000')}\n\n" for i in range(ncpu))
+    else:
+        k.files["/proc/cpuinfo"] = "processor\t: 0\nmodel name\t: x\n\n"
+    with k.installed(pkg=pkg):
+        per = ctx.guard("cpu_freq-sysfs", pkg.cpu_freq, percpu=True)
+        avg = ctx.guard("cpu_freq-sysfs", pkg.cpu_freq)
+    ctx.observe("freq", ([tuple(x) for x in per], tuple(avg) if avg else None))
+    want = []
+    for i in range(ncpu):
+        if offline and i == 0:
+            want.append((0, 0, 0))
+        else:
+            c = cur[i] if src == "proc_cpuinfo" else ctx.div(cur[i], 1000)       # /proc/cpuinfo is already in MHz
+            want.append((c, ctx.div(mn[i], 1000), ctx.div(mx[i], 1000)))
+    ok = [len(per) == ncpu] + [ctx.all([ctx.eq(g.current, w[0]), ctx.eq(g.min, w[1]), ctx.eq(g.max, w[2])]) for g, w in zip(per, want)]
+    ctx.prove(ctx.all(ok), "cpu_freq-sysfs", detail=f"layout={layout} current from {src} offline0={offline}")
+    if len(per) == ncpu:
+        ctx.prove(avg is not None and ctx.all([ctx.eq(avg.current, ctx.div(ctx.sum([w[0] for w in want]), ncpu)), ctx.eq(avg.min, ctx.div(ctx.sum([w[1] for w in want]), ncpu)),
+                                               ctx.eq(avg.max, ctx.div(ctx.sum([w[2] for w in want]), ncpu))]), "cpu_freq-sysfs-mean")
